@@ -64,8 +64,10 @@ PPL::H79_Certificate::H79_Certificate(const Polyhedron& ph)
 
 int
 PPL::H79_Certificate::compare(const H79_Certificate& y) const {
+  // Note: a greater affine dimension means a smaller certificate
+  // (see compare(const Polyhedron&)).
   if (affine_dim != y.affine_dim) {
-    return (affine_dim > y.affine_dim) ? 1 : -1;
+    return (affine_dim < y.affine_dim) ? 1 : -1;
   }
   if (num_constraints != y.num_constraints) {
     return (num_constraints > y.num_constraints) ? 1 : -1;
